@@ -281,7 +281,7 @@ SPEC = {
          'timeout': {'quick': 300, 'thorough': 300},
          'fidelity': [dict(mode=0, tdk=0), dict(mode=1, tdk=1)]},
         {'name': 'order4', 'fn': 'order', 'params': p4, 'call': c4,
-         'bounds': {'thorough': b4 + ' and not j and not m0 and not dup and unit == 0 and not inst and (own == 15 or own == 7 or own == 11 or own == 13 or own == 14)'},
+         'bounds': {'thorough': b4 + ' and not j and not m0 and not dup and unit == 0 and not inst and (own == 15 or own == 7 or own == 14)'},
          'slices': {'thorough': ['p == %d' % i for i in range(24)]},
          'reach': 'order_reach', 'reach_bounds': {'thorough': b4 + ' and p == 0 and q == 1 and not inst and not j and unit == 0 and own == 15'},
          'timeout': {'thorough': 1500},
